@@ -349,7 +349,7 @@ def check_C14(tier, seed, replay=None):
             rep.harness("no run")
         if classes.get("SKIPPED", 0) > len(hashes) // 20:
             rep.harness("generator produced %d invalid programs" % classes["SKIPPED"])
-        stuck = sorted(k for k, v in probes.items() if v == 0)
+        stuck = sorted(k for k, v in probes.items() if v == 0 and not k.startswith("quiescent_states_with_"))  # those two are measurements of what the library keeps, not reach probes
         if tier == "thorough" and stuck:
             rep.harness("reach probes stuck at zero: %s" % stuck)
 
